@@ -290,6 +290,9 @@ GEN_UNITS = {  # property -> units of Gen/Source.v its source-level theorems are
     "C11": ["buffer_timestamp", "buffer_interval", "buffer_bounding_box_geometry", "buffer_geometry", "MAX_FREQUENCY"],
     "C12": ["intervals_overlap", "have_temporal_overlap", "have_frequency_overlap", "is_in_clip"],
     "C14": ["segment_clip"],
+    "C19": ["classification_encoding", "multilabel_encoding", "prediction_encoding"],
+    "C04": ["ClipEvaluation__check_clips_match", "ClipEvaluation__check_matches", "AnnotationProject__annotations_are_part_of_the_project", "Clip__validate_times"],
+    "C05": ["compute_geometric_features"],
 }
 
 
